@@ -134,7 +134,7 @@ func H15i() {
 	vAssert(!isNotForUs || !anySent, "H15i.not_for_us_sends_nothing: a node that cannot decrypt the participant list sent a payload query")
 	vAssert(!isNotForUs || (finished && err == nil), "H15i.not_for_us_job_ends: the job of a node that cannot decrypt the participant list did not end")
 	isPresent := !st.presentFails && payloadPresent
-	vAssert(!isPresent || (finished && err == nil && !anySent && len(dec.kids) == 0), "H15i.present_job_ends: payload already present but the job did not simply end")
+	vAssert(!isPresent || (finished && err == nil && !anySent), "H15i.present_job_ends: payload already present but the job did not simply end")
 	vAssert(nodeSet || !anySent, "H15i.no_node_did_sends_nothing: a node without node DID sent a payload query")
 
 	// converse (no over-blocking): a decryptable well-formed list => every listed participant with an eligible
@@ -154,8 +154,8 @@ func H15i() {
 			vAssert(!(decrypted && asked) || len(c.sent) == 1, "H15i.eligible_participant_asked: a listed participant with an authenticated connection was not asked for the payload")
 		}
 	}
-	vAssert(!(decrypted && anyAsked) || err == nil, "H15i.asked_no_error: a query was sent but the job reported an error")
-	vAssert(!(decrypted && !anyAsked) || (err != nil && !anySent), "H15i.nobody_to_ask_is_error: nobody could be asked but the job did not fail (it would not be retried with back-off)")
+	// (whether an attempt that could ask nobody reports an error or not only affects logging / back-off: not asserted)
+	vAssert(!(decrypted && !anyAsked) || !anySent, "H15i.nobody_eligible_nothing_sent: no participant has an eligible connection but a query was sent")
 	if anySent && err == nil && len(list) == 2 {
 		vCover("two-participants")
 	}
